@@ -529,7 +529,7 @@ func checkScanCap(c *Ctx, rule string, fs []*ssa.Function) int {
 // methods mutate it (sync.*, buffers), or handed to a call that may write through it (slices, maps,
 // pointers passed as arguments other than to known read-only functions).
 func checkNoShared(c *Ctx, rule, construct string, fs []*ssa.Function, allow map[string]string) {
-	var hits []string
+	var hits, soft []string
 	for _, f := range fs {
 		if !inModule(f) {
 			continue
@@ -548,6 +548,13 @@ func checkNoShared(c *Ctx, rule, construct string, fs []*ssa.Function, allow map
 					continue
 				}
 				if why := mutableUse(c, g, i); why != "" {
+					// the synchronisation types of package sync are safe to share by design; what is done with
+					// them (a pool whose objects are not cleared, a memo keyed incompletely) is judged by the
+					// STATE rules, not by their mere presence
+					if ts := tname(deref(g.Type())); ts == "sync.Pool" || ts == "sync.Map" || ts == "sync.Once" || ts == "sync.Mutex" || ts == "sync.RWMutex" {
+						soft = append(soft, fname(f)+" uses "+gname(g)+" ("+ts+")")
+						continue
+					}
 					hits = append(hits, fname(f)+" uses "+gname(g)+" at "+c.W.pos(i.Pos())+" ("+why+")")
 				}
 			}
@@ -558,6 +565,11 @@ func checkNoShared(c *Ctx, rule, construct string, fs []*ssa.Function, allow map
 	pos := token.NoPos
 	if len(fs) > 0 {
 		pos = fs[0].Pos()
+	}
+	if len(hits) == 0 && len(soft) > 0 {
+		sort.Strings(soft)
+		c.undecided(rule, construct, pos, "package-level synchronisation objects are used ("+strings.Join(dedupe(soft), "; ")+"); how they are used is judged by the STATE rules")
+		return
 	}
 	c.check(len(hits) == 0, rule, construct, pos, fmt.Sprintf("%d functions use no package-level mutable state", len(fs)), "package-level mutable state shared between concurrent/independent calls: "+strings.Join(hits, "; "))
 }
